@@ -11,10 +11,11 @@ package silx
 // goroutine the manager creates must not belong to a bubble; it never
 // receives a span) and then installs its own provider, whose sampler drops
 // everything unless a Mutes call is armed and whose span processor runs the
-// armed callback at the start of the n-th Query span of that call ("q1",
-// "q2").  A third point, "w", is the debug log line "determined current
-// silences state" that Mutes emits between its last query and the cache
-// write (WLogger).
+// armed callback at the start and at the end of the n-th Query span of that
+// call ("q1", "q2"; "e1", "e2": Query has returned, the lock is released).  A
+// further point, "w", is the debug log line "determined current silences
+// state" that Mutes emits between its last query and the cache write
+// (WLogger).
 //
 // The callbacks run on the goroutine of the Mutes call itself: the resulting
 // schedule is exactly "store operation X completed between two steps of
@@ -66,7 +67,13 @@ func (hookProcessor) OnStart(_ context.Context, s sdktrace.ReadWriteSpan) {
 	inj.nq++
 	inj.fire("q" + string(rune('0'+inj.nq)))
 }
-func (hookProcessor) OnEnd(sdktrace.ReadOnlySpan)      {}
+func (hookProcessor) OnEnd(s sdktrace.ReadOnlySpan) {
+	// the span ends when Query returns: the store lock has been released
+	if !inj.armed || inj.inHook || s.Name() != querySpan {
+		return
+	}
+	inj.fire("e" + string(rune('0'+inj.nq)))
+}
 func (hookProcessor) Shutdown(context.Context) error   { return nil }
 func (hookProcessor) ForceFlush(context.Context) error { return nil }
 
@@ -96,7 +103,7 @@ func EnableInjection() {
 }
 
 // WithInjection runs call() with fn armed: fn(point) is invoked at "q1", "q2" (start of the
-// first / second Silences.Query inside call) and "w" (WLogger's line).  Nested spans and log
+// first / second Silences.Query inside call), "e1", "e2" (their end) and "w" (WLogger's line).  Nested spans and log
 // lines produced by fn itself are ignored.
 func WithInjection(fn func(point string), call func()) {
 	inj = injector{armed: true, fn: fn}
